@@ -184,6 +184,23 @@ def vf : P String := do
         else if exact && i != e then
           v := v.diffIf true s!"{solver} value_not_bit_exact b=[{showVec b}] impl={ratStr i} expectimax={ratStr e}"
     return v
+  -- LinearSupport: the stopping test (hypothesis `hX` of `linear_support_exact_of_cover`, conclusion of `ls_break_tested`) at the corners and
+  -- at every exact vertex of the partition of EVERY returned timestep, against the one-step backup of the previous returned list
+  let v := if solver != "LinearSupport" then v else Id.run do
+    let mut v := v
+    let mut prev : List Vec := [vzero m.S]
+    let mut t := 0
+    for cur in vecLists do
+      if t > 0 && !cur.isEmpty && cur.length ≤ 24 then
+        let pts := (List.range m.S).map (cornerB m.S) ++ partitionVertices m.S cur
+        for x in pts do
+          let tv := maxTo (m.A - 1) (qOf m (env m.S prev) x)
+          let cv := env m.S cur x
+          if !(closeQ tol9 tv cv) && decide (cv < tv) then
+            v := v.failIf true s!"{solver} stopping_test_violated t={t} x=[{showVec x}] backup={ratStr tv} current={ratStr cv}"
+      prev := cur
+      t := t + 1
+    return v
   -- findBestAtPoint's value as computed by the library at the harness beliefs
   let v := v.diffIf (vals.length != bs.length) s!"{solver} findBestAtPoint count"
   let v := (bs.zip vals).foldl (fun v (bv : Vec × Rat) =>
@@ -205,8 +222,8 @@ def rtbss : P String := do
   let e := expectimax m h b
   let validBound := allLt m.S (fun s => allLt m.A (fun a => decide (m.R s a ≤ maxR)))
   if !validBound then return "skip maxR_not_an_upper_bound"
-  -- the truncated recursion (observations of probability ≤ 1e-6 skipped) must coincide with the property's definition on this input
-  if !(closeQ (tol9 / 1000) (expectimaxT m τ h b) e) then return "skip ill_conditioned"
+  -- hypothesis of `rtbss_full`: no observation probability in the lookahead tree lies in (0, 1e-6]
+  if !(skipFreeB m τ h b) then return "skip ill_conditioned"
   let neg := decide (maxR < 0)
   let v : Verdict := { tag := s!"rtbss h{h}" ++ (if neg then " negative_maxR" else "") }
   let sfx := if neg then "_negative_maxR" else ""
